@@ -1,6 +1,7 @@
 package main
 
 import (
+	"os"
 	"go/token"
 	"fmt"
 	"go/types"
@@ -437,6 +438,21 @@ func propC19(c *Check) {
 		"x/goat/keeper.Keeper.Finalized|invalid from NewPayloadV4 api":                               "intended: an engine fault must abort the block (C09)",
 		"x/goat/keeper.Keeper.Finalized|invalid from ForkchoiceUpdatedV3 api":                        "intended: an engine fault must abort the block (C09)",
 	}
+	// the same exits named by what guards them (the wording of a message may change, the condition under which the
+	// hook gives up may not): module → pattern over the facts that dominate the error construction → reviewed key
+	reviewedGuards := []struct {
+		mod, re, key string
+	}{
+		{"x/locking", `^\(Pending != .*PowerRanking\.Iterate.*\.Status\)$`, "x/locking/keeper.Keeper.EndBlocker|%s validator %x in power ranking"},
+		{"x/locking", `^makemap\(map\[string\]uint64\)\[.*PowerRanking\.Iterate.*\]#1$`, "x/locking/keeper.Keeper.EndBlocker|pending validator %x existed in the last validator set"},
+		{"x/locking", `^\(0 == φ\{\(@ \+ Context\.VoteInfos\(\)\[.*\]\.Validator\.Power\)\|0\}\)$`, "x/locking/keeper.Keeper.DistributeReward|invalid zero power"},
+		{"x/locking", `^\(φ\{0\|Pair\.K1\(.*PowerRanking\.Iterate.*\)\} < Pair\.K1\(.*PowerRanking\.Iterate.*\)\)$`, "x/locking/keeper.Keeper.EndBlocker|invalid iterator: validator power is bigger than before"},
+		{"x/relayer", `^\(0 == len\(slices\.DeleteFunc\(.*Voters.*\)\)\)$`, "x/relayer/keeper.Keeper.EndBlocker|delete too many voters in ElectProposer"},
+	}
+	guardRes := make([]*regexp.Regexp, len(reviewedGuards))
+	for i, g := range reviewedGuards {
+		guardRes[i] = regexp.MustCompile(g.re)
+	}
 	breach, bparent := p.CG().Reach(p.Contexts().Block, nil)
 	found := map[string]bool{}
 	var keysFound []string
@@ -456,6 +472,9 @@ func propC19(c *Check) {
 					msg = strings.Trim(k.Value.ExactString(), "\"")
 				}
 			}
+			if os.Getenv("GOATVERIF_DEBUG_GUARDS") != "" {
+				fmt.Fprintf(os.Stderr, "GUARD %s|%s <= %v\n", FuncKey(f), msg, p.guardFactsOf(f, ci))
+			}
 			key := FuncKey(f) + "|" + msg
 			// a constructor that wraps an error handed to it (a callee's result, a parameter) adds context to a failure
 			// that already exists; it is not a new way to fail
@@ -470,6 +489,20 @@ func propC19(c *Check) {
 				for rk := range reviewed {
 					if strings.HasPrefix(rk, mod+"/") && strings.HasSuffix(rk, "|"+msg) && msg != "" {
 						key = rk
+					}
+				}
+			}
+			if _, listed := reviewed[key]; !listed {
+				mod := strings.Join(strings.SplitN(FuncKey(f), "/", 3)[:2], "/")
+				facts := p.guardFactsOf(f, ci)
+				for i, g := range reviewedGuards {
+					if g.mod != mod {
+						continue
+					}
+					for _, ft := range facts {
+						if guardRes[i].MatchString(ft) {
+							key = g.key
+						}
 					}
 				}
 			}
@@ -525,6 +558,31 @@ func propC19(c *Check) {
 
 
 // mayBeNilConst: v is, on some path, the nil constant (directly or through φ-nodes).
+// guardFactsOf: the facts of the branch outcomes that dominate instruction in (up to five levels), in the function's
+// own terms: what is known to hold when the instruction runs.
+func (p *Prog) guardFactsOf(f *ssa.Function, in ssa.Instruction) []string {
+	var out []string
+	r := p.R(f)
+	n := 0
+	for d := in.Block(); d != nil && d.Idom() != nil && n < 5; d = d.Idom() {
+		id := d.Idom()
+		if len(d.Preds) != 1 || d.Preds[0] != id || len(id.Succs) != 2 || id.Succs[0] == id.Succs[1] {
+			continue
+		}
+		iff, ok := id.Instrs[len(id.Instrs)-1].(*ssa.If)
+		if !ok {
+			continue
+		}
+		n++
+		if id.Succs[0] == d {
+			out = append(out, posFact(r, iff.Cond))
+		} else {
+			out = append(out, negateFact(r, iff.Cond))
+		}
+	}
+	return out
+}
+
 // decoratesPropagatedError: one operand of the error constructor is an error value that was not made here: the
 // result of a call, a parameter or a captured variable (possibly merged by a φ).
 func decoratesPropagatedError(ci ssa.CallInstruction) bool {
